@@ -125,6 +125,87 @@ class Family:
         return t.and_(t.eq(v['l0'], v['p0']), t.ge(v['p0'], t.ZERO), t.eq(v['q0'], v['p0']), bs('bs_ok', sK),
                       agree(v['pbuf'], bs('bs_buf', sK), v['p0'], bs('bs_pos', sK)), t.le(bs('bs_pos', sK), v['plen']))
 
+    # ---- C02 (canonical form): building what was parsed, and building equal values
+    def def_p_step_rev(self, v, k):
+        """k >= 1: a parse fold still running after k steps was running after k-1, step k-1 parsed, and it stands where that parse ended"""
+        i = t.sub(k, t.ONE)
+        s, s1 = self.PF(v, i), self.PF(v, k)
+        return t.implies(t.and_(t.ge(k, t.ONE), self.good(s1)), t.and_(self.good(s), self.P('P_ok', t.BOOL, v, i), t.eq(ps('ps_pos', s1), self.P('P_end', t.INT, v, i))))
+
+    def closure_trait(self, v, i):
+        """closure of the element / member construct (induction hypothesis of C02): a value it parsed is accepted by its build, which
+        returns an equal value and writes no more bytes than the parse consumed"""
+        b, p = self.B('B_ok', t.BOOL, v, i), self.P('P_ok', t.BOOL, v, i)
+        obj = self.bargs(v, i)[1]
+        pv = self.P('P_val', t.VAL, v, i)
+        used = t.sub(self.P('P_end', t.INT, v, i), self.pargs(v, i)[3])
+        return t.implies(t.and_(p, t.or_(t.eq(obj, pv), t.app('pyeq', t.BOOL, obj, pv))),
+                         t.and_(b, t.app('pyeq', t.BOOL, self.B('B_ret', t.VAL, v, i), obj), t.le(self.B('B_len', t.INT, v, i), used)))
+
+    def make_canonical(self):
+        F, BV, PV, nm = self, self.BV, self.PV, self.name
+        T2 = ('C02',)
+
+        def items_are_parsed(v, K):
+            j = t.var('cj!', t.INT)
+            return t.forall([j], t.implies(t.and_(t.le(t.ZERO, j), t.lt(j, K)), t.eq(F.item(v, j), F.P('P_val', t.VAL, v, j))), pats=[[F.item(v, j)]])
+
+        def canon_build(v):
+            k, K = v['k'], v['K']
+            return t.implies(t.and_(t.le(t.ZERO, k), t.le(k, K), t.eq(v['l0'], v['p0']), t.ge(v['p0'], t.ZERO), F.good(F.PF(v, K)), items_are_parsed(v, K)),
+                             t.and_(bs('bs_ok', F.BF(v, k)), t.le(t.sub(bs('bs_pos', F.BF(v, k)), v['p0']), t.sub(ps('ps_pos', F.PF(v, k)), v['q0'])),
+                                    t.implies(t.ge(k, t.ONE), t.app('pyeq', t.BOOL, F.B('B_ret', t.VAL, v, t.sub(k, t.ONE)), F.P('P_val', t.VAL, v, t.sub(k, t.ONE))))))
+        keep = lambda vars_: (lambda v: [{n: v[n] for n, _ in vars_}])      # noqa
+        Lemma(nm + '_parse_good_mono', BV + PV + [('j', t.INT), ('d', t.INT)],
+              lambda v: t.implies(t.and_(t.ge(v['j'], t.ZERO), t.ge(v['d'], t.ZERO), F.good(F.PF(v, t.add(v['j'], v['d'])))), F.good(F.PF(v, v['j']))),
+              induct=('d', 0), tags=T2, ih_instances=keep(BV + PV + [('j', t.INT)]), defs=lambda v: [F.def_p_step_rev(v, t.add(v['j'], v['d']))],
+              doc='every prefix of a running parse fold was running')
+        Lemma(nm + '_canonical_build', BV + PV + [('k', t.INT), ('K', t.INT)], canon_build, induct=('k', 0), tags=T2, ih_instances=keep(BV + PV + [('K', t.INT)]),
+              hints=lambda v: [F.inst('parse_good_mono', v, j=v['k'], d=t.sub(v['K'], v['k'])), F.inst('parse_good_mono', v, j=t.sub(v['k'], t.ONE), d=t.add(t.sub(v['K'], v['k']), t.ONE))],
+              traits=lambda v: [F.closure_trait(v, t.sub(v['k'], t.ONE)), F.nonneg(v, t.sub(v['k'], t.ONE))],
+              defs=lambda v: [F.def_b_zero(v), F.def_p_zero(v), F.def_b_step(v, v['k']), F.def_p_step_rev(v, v['k'])],
+              doc='building the values a successful parse returned: every step builds, returns an equal value, and the output is no longer than the input consumed')
+        # ---- building pairwise equal values twice: same success, same positions, same bytes
+        SECOND = [('buf0x', t.ARR), ('Hbx', HEAP), ('Dbx', DOM), ('vx', t.VAL), ('cx', t.INT)]
+
+        def second(v):
+            w = dict(v)
+            w.update(buf0=v['buf0x'], Hb=v['Hbx'], Db=v['Dbx'], v=v['vx'], c=v['cx'])
+            return w
+
+        def items_equal(v, K):
+            j = t.var('cq!', t.INT)
+            return t.forall([j], t.implies(t.and_(t.le(t.ZERO, j), t.lt(j, K)), t.app('pyeq', t.BOOL, F.item(v, j), F.item(second(v), j))), pats=[[F.item(v, j)], [F.item(second(v), j)]])
+
+        def congruence_trait(v, i):
+            """congruence of the element / member construct (induction hypothesis of C02): building equal values gives the same outcome
+            and identical bytes"""
+            w = second(v)
+            b1, b2 = F.B('B_ok', t.BOOL, v, i), F.B('B_ok', t.BOOL, w, i)
+            n1, n2 = F.B('B_len', t.INT, v, i), F.B('B_len', t.INT, w, i)
+            W1, W2 = F.B('B_bytes', t.ARR, v, i), F.B('B_bytes', t.ARR, w, i)
+            q = t.var('cgi!', t.INT)
+            same = t.forall([q], t.implies(t.and_(t.le(t.ZERO, q), t.lt(q, n1)), t.eq(t.select(W1, q), t.select(W2, q))), pats=[[t.select(W1, q)], [t.select(W2, q)]])
+            o1, o2 = F.bargs(v, i)[1], F.bargs(w, i)[1]
+            return t.implies(t.or_(t.eq(o1, o2), t.app('pyeq', t.BOOL, o1, o2)), t.and_(t.eq(b1, b2), t.implies(b1, t.and_(t.eq(n1, n2), same))))
+
+        def congr(v):
+            k, K = v['k'], v['K']
+            w = second(v)
+            s1, s2 = F.BF(v, k), F.BF(w, k)
+            return t.implies(t.and_(t.le(t.ZERO, k), t.le(k, K), t.eq(v['l0'], v['p0']), t.ge(v['p0'], t.ZERO), bs('bs_ok', F.BF(v, K)), items_equal(v, K)),
+                             t.and_(bs('bs_ok', s2), t.eq(bs('bs_pos', s2), bs('bs_pos', s1)), agree(bs('bs_buf', s2), bs('bs_buf', s1), v['p0'], bs('bs_pos', s1))))
+        self.items_equal = items_equal
+        CV = BV + SECOND + [('k', t.INT), ('K', t.INT)]
+        Lemma(nm + '_build_congruence', CV, congr, induct=('k', 0), tags=T2, ih_instances=keep(BV + SECOND + [('K', t.INT)]),
+              hints=lambda v: [F.inst('ok_mono', v, j=v['k'], d=t.sub(v['K'], v['k'])), F.inst('ok_prefix', v), F.inst('pos_len', v, k=t.sub(v['k'], t.ONE)),
+                               F.inst('pos_len', second(v), k=t.sub(v['k'], t.ONE)), F.inst('pos_len', v), F.inst('pos_len', second(v))],
+              traits=lambda v: [congruence_trait(v, t.sub(v['k'], t.ONE)), F.nonneg(v, t.sub(v['k'], t.ONE)), F.nonneg(second(v), t.sub(v['k'], t.ONE))],
+              defs=lambda v: [F.def_b_zero(v), F.def_b_zero(second(v)), F.def_b_step(v, v['k']), F.def_b_step(second(v), v['k'])],
+              doc='two build folds over pairwise equal values, appending at the same position of two streams: same success, same positions, same bytes')
+        self.second = second
+        return self
+
     def inst(self, lemma, v, **kw):
         lem = LEMMAS['%s_%s' % (self.name, lemma)]
         return lem.stmt({n: kw[n] if n in kw else v[n] for n, _ in lem.vars})
@@ -210,7 +291,26 @@ class Family:
             return None
         return {self.key: m, 'buf0': buf0, 'l0': l0, 'p0': p0, 'Hb': Hb, 'Db': Db, 'v': v_, 'base': base, 'c': c, 'pbuf': pbuf, 'plen': plen, 'q0': q0, 'Hp': Hp, 'Dp': Dp, 'cp': c2}, k, K
 
-    def post_hints(self, ob):
+    def vars_of_build(self, bf):
+        m, K, b0_, v_, base, c = bf.args
+        if b0_.op != 'mkBS' or b0_.args[0].smt() != 'true':
+            return None
+        ok, buf0, l0, p0, Hb, Db = b0_.args
+        return {self.key: m, 'buf0': buf0, 'l0': l0, 'p0': p0, 'Hb': Hb, 'Db': Db, 'v': v_, 'base': base, 'c': c}
+
+    def match_any(self, bf, pf):
+        """like match, but the two folds need not belong to one round trip (C02 pairs a parse with the build of its result)"""
+        v = self.vars_of_build(bf)
+        m2, k, s0_, pbuf, plen, base2, c2 = pf.args
+        if v is None or v[self.key].smt() != m2.smt() or s0_.op != 'mkPS' or s0_.args[0].smt() != 'true' or s0_.args[1].smt() != 'false':
+            return None
+        pok, pstop, q0, Hp, Dp = s0_.args
+        if v['base'].smt() != base2.smt():
+            return None
+        v.update(pbuf=pbuf, plen=plen, q0=q0, Hp=Hp, Dp=Dp, cp=c2)
+        return v, k, bf.args[1]
+
+    def post_hints(self, ob, extra_idx=()):
         terms = list(ob.hyps) + [ob.goal]
         apps = ghost.find_apps(terms, (self.bfold, self.pfold, self.pval))
         out, seen = [], set()
@@ -231,6 +331,8 @@ class Family:
                 idx[x.args[1].smt()] = x.args[1]
             if x.op not in ('int', 'bool', 'strlit', 'var', 'raw', 'forall'):
                 stack.extend(a for a in x.args if isinstance(a, t.T))
+        for j in extra_idx:
+            idx[j.smt()] = j
         for bf in apps[self.bfold].values():
             if ghost.has_bound_var(bf):
                 continue
@@ -253,7 +355,80 @@ class Family:
         return out
 
 
+def ground_indexes(ob):
+    """ground indexes at which the goal reads a list of values"""
+    idx = {}
+    stack, seen_t = [ob.goal], set()
+    while stack:
+        x = stack.pop()
+        if id(x) in seen_t or not isinstance(x, t.T):
+            continue
+        seen_t.add(id(x))
+        if x.op == 'select' and getattr(x.args[0], 'sort', None) == 'VArr' and not ghost.has_bound_var(x):
+            idx[x.args[1].smt()] = x.args[1]
+        if x.op == 'dyn_item' and not ghost.has_bound_var(x):
+            idx[x.args[1].smt()] = x.args[1]
+        if x.op not in ('int', 'bool', 'strlit', 'var', 'raw', 'forall'):
+            stack.extend(a for a in x.args if isinstance(a, t.T))
+    return list(idx.values())
+
+
+def canonical_post_hints(F):
+    """instances of the proved canonical-form lemmas (and of the round-trip lemmas) on the fold applications of a C02 ghost obligation"""
+    def hints(ob):
+        apps = ghost.find_apps(list(ob.hyps) + [ob.goal], (F.bfold, F.pfold))
+        bfs = [b for b in apps[F.bfold].values() if not ghost.has_bound_var(b)]
+        pfs = [p_ for p_ in apps[F.pfold].values() if not ghost.has_bound_var(p_)]
+        pairs = []
+        for b1 in bfs:
+            for b2 in bfs:
+                if b1 is b2 or b1.args[0].smt() != b2.args[0].smt():
+                    continue
+                v = F.vars_of_build(b1)
+                w = F.vars_of_build(b2)
+                if v is None or w is None or v['base'].smt() != w['base'].smt():
+                    continue
+                pairs.append((b1, b2, v, w))
+        # the congruence lemma wants the two value lists pairwise equal - a universally quantified premise.  It is established at a
+        # fresh constant `wit` (every lemma below is instantiated there) and generalised by
+        #     (0 <= wit < K => item(v, wit) == item(w, wit))  =>  forall j. 0 <= j < K => item(v, j) == item(w, j)
+        # which some value of `wit` satisfies whatever the lists are (a counterexample index if there is one, anything otherwise):
+        # assuming it for a constant that occurs nowhere else is conservative
+        wit = t.var('wit!idx', t.INT) if pairs else None
+        out = list(F.post_hints(ob, [wit] if pairs else []))
+        seen = {x.smt() for x in out}
+
+        def add(x):
+            if x.smt() not in seen:
+                seen.add(x.smt())
+                out.append(x)
+        for bf in bfs:
+            for pf in pfs:
+                mt = F.match_any(bf, pf)
+                if mt is None:
+                    continue
+                v, k_p, k_b = mt
+                add(F.inst('canonical_build', v, k=k_b, K=k_p))
+                add(F.inst('parse_good_mono', v, j=k_b, d=t.sub(k_p, k_b)))
+                for j in ground_indexes(ob) + ([wit] if pairs else []):
+                    j1 = t.add(j, t.ONE)
+                    add(F.inst('canonical_build', v, k=j1, K=k_p))
+                    add(F.inst('parse_good_mono', v, j=j1, d=t.sub(k_p, j1)))
+        for b1, b2, v, w in pairs:
+            vv = dict(v, buf0x=w['buf0'], Hbx=w['Hb'], Dbx=w['Db'], vx=w['v'], cx=w['c'])
+            add(F.inst('build_congruence', vv, k=b2.args[1], K=b1.args[1]))
+            add(F.inst('pos_len', v, k=b1.args[1]))
+            K = b1.args[1]
+            at_wit = t.implies(t.and_(t.le(t.ZERO, wit), t.lt(wit, K)), t.app('pyeq', t.BOOL, F.item(v, wit), F.item(w, wit)))
+            add(t.implies(at_wit, F.items_equal(vv, K)))
+        return out
+    return hints
+
+
 class ArrayFamily(Family):
+    def item(self, v, j):
+        return t.app('dyn_item', t.VAL, v['v'], j)
+
     def bargs(self, v, i):
         s = self.BF(v, i)
         H0, D0 = _indexed(bs('bs_H', s), bs('bs_D', s), v['c'], i)
@@ -268,6 +443,9 @@ class ArrayFamily(Family):
 class SequenceFamily(Family):
     def good(self, s):
         return t.and_(ps('ps_ok', s), t.not_(ps('ps_stop', s)))
+
+    def item(self, v, j):
+        return t.app('qbitem', t.VAL, v['v'], j)
 
     def bargs(self, v, i):
         s = self.BF(v, i)
@@ -416,11 +594,11 @@ def no_stop_on_build(src):
     return hints
 
 
-ARRAY = ArrayFamily('array', 'm', 'abfold', 'afold', 'aval', 'abret').make()
+ARRAY = ArrayFamily('array', 'm', 'abfold', 'afold', 'aval', 'abret').make().make_canonical()
 SEQUENCE = SequenceFamily('sequence', 'sl', 'qbfold', 'qfold', 'qval', 'qbret').make()
 STRUCT = StructFamily().make()
 struct_persistence(STRUCT)
-ghost.POST_HINTS['Array'] = ARRAY.post_hints
+ghost.POST_HINTS['Array'] = canonical_post_hints(ARRAY)
 def struct_post_hints(ob):
     """instances of the proved Struct lemmas on the fold applications of a ghost obligation; member indexes are taken from the
     member-list accesses (sl_at) that occur ground in it"""
